@@ -273,11 +273,13 @@ def _check_main(ctx, res) -> None:
         for mname, m in sorted(cinfo.methods.items()):
             if not (mname.startswith("_") and mname[1:] in G.ctors):
                 continue
+            from .common import inlined
+            m_node = inlined(idx, m)  # a header step moved into a private helper is read in place, with the arguments substituted
             parents = {}
-            for pnode in ast.walk(m.node):
+            for pnode in ast.walk(m_node):
                 for ch in ast.iter_child_nodes(pnode):
                     parents[ch] = pnode
-            for c in calls_in(m.node):
+            for c in calls_in(m_node):
                 if not (isinstance(c.func, ast.Attribute) and c.func.attr == "visit" and c.args and isinstance(c.args[0], ast.Attribute)
                         and isinstance(c.args[0].value, ast.Name)):
                     continue
